@@ -42,6 +42,7 @@ type c15Op struct {
 	Md  string  `json:"md,omitempty"`  // brk: stall close cancel error
 	N   int     `json:"n,omitempty"`   // sub/reload: failing Gets first
 	Mid []c15Ev `json:"mid,omitempty"` // sub/reload: events on prefix P between the snapshot and the watch
+	Gap []c15Ev `json:"gap,omitempty"` // brk: events on prefix P after the streams ended, before the watches are re-created
 	Sch []int   `json:"sch,omitempty"` // brk: which replaying watcher receives its next response (then first-come)
 }
 
@@ -428,7 +429,17 @@ func c15Interp(t *testing.T, c c15Case) (v kit.Verdict) {
 				if o.Md == "stall" {
 					continue
 				}
-				fake.Break(o.Md)
+				// events in the gap: no stream carries them; a subscriber learns them only through the
+				// start revision of the watch its watcher re-creates (the model sees them in pump)
+				var gap []internal.C15Gap
+				for _, e := range o.Gap {
+					g := m.toggle(p, e, false)
+					gap = append(gap, internal.C15Gap{Del: g.del, Key: g.key, Val: g.val})
+				}
+				if len(gap) > 0 && hasSub(m, p) {
+					classes["events-in-gap-before-watch-retry"] = true
+				}
+				fake.Break(o.Md, gap)
 				kit.Wait() // every live watcher has re-opened its watch
 				if fake.Pending() >= 2 {
 					classes["replay-by-several-watchers"] = true
@@ -698,6 +709,12 @@ func c15Gen(rt *rapid.T) c15Case {
 		case "brk":
 			o.Md = rapid.SampledFrom([]string{"stall", "stall", "close", "cancel", "error"}).Draw(rt, "mode")
 			outage = o.Md == "stall" || rapid.Bool().Draw(rt, "outage")
+			if o.Md != "stall" && rapid.Bool().Draw(rt, "hasgap") {
+				o.P = pickPrefix("gapp")
+				for j := rapid.IntRange(1, 3).Draw(rt, "ngap"); j > 0; j-- {
+					o.Gap = append(o.Gap, ev())
+				}
+			}
 			if o.Md != "stall" && rapid.Bool().Draw(rt, "hassched") {
 				o.Sch = rapid.SliceOfN(rapid.IntRange(0, 3), 1, 10).Draw(rt, "sched")
 			}
